@@ -424,7 +424,12 @@ func checkLookup(c *Ctx, fn *ssa.Function, endVal string) {
 		c.Ob("R4.1b", FuncName(fn)+"#lookup", fn.Pos(), false, "next-task lookup", "undecided: function holding a task table does not take (reason, currentTask)")
 		return
 	}
-	cur := fn.Params[len(fn.Params)-1]
+	checkLookupFrom(c, fn, fn.Params[len(fn.Params)-1], endVal, 0)
+}
+
+// checkLookupFrom: cur is the parameter of fn that holds the current task; a return that hands
+// (…, cur) to another function of the package is decided in that function.
+func checkLookupFrom(c *Ctx, fn *ssa.Function, cur *ssa.Parameter, endVal string, depth int) {
 	isCur := func(t *Term) bool { return t.Op == "param" && t.V == ssa.Value(cur) }
 	for _, ret := range returnsOf(fn) {
 		if len(ret.Results) != 1 {
@@ -454,6 +459,20 @@ func checkLookup(c *Ctx, fn *ssa.Function, endVal string) {
 				ok := eq && bound
 				c.Ob("R4.1b", FuncName(fn)+"#return(seq[i+1])", ret.Pos(), ok, "successor of the current task", ifs(!ok, "seq[i+1] returned without currentTask == seq[i] and i < len(seq)-1")).WithFacts(lf.Facts)
 			default:
+				if call, ok := lf.V.(*ssa.Call); ok && depth < 2 {
+					if callee := call.Call.StaticCallee(); callee != nil && callee.Pkg == fn.Pkg && len(callee.Blocks) > 0 {
+						handed := -1
+						for i, a := range call.Call.Args {
+							if a == ssa.Value(cur) && i < len(callee.Params) {
+								handed = i
+							}
+						}
+						if handed >= 0 {
+							checkLookupFrom(c, callee, callee.Params[handed], endVal, depth+1)
+							continue
+						}
+					}
+				}
 				c.Ob("R4.1b", FuncName(fn)+"#return(other)", ret.Pos(), false, "next-task lookup returns an unrecognised value", "undecided: "+t.String()).WithFacts(lf.Facts)
 			}
 		}
